@@ -89,7 +89,7 @@ PROPS = {
     "C07": P(["disp2d"], tb=DISP_TB, assumptions=DISP_AS,
              partial="C07Accuracy proves the clause end to end on the exact class: for polynomial f, c (resp. g) given through the AD operations, with the integrand f*g' of degree <= 31, every piece's reported value differs from the TRUE real integral of f dg over that piece by at most |b-a|/2 * 1e-16 * sum|coeff|*max(|a|,|b|)^k (the table defect; independent of the number of bisections), 0 <= e < tol, and the reported values of the pieces of [a,b] add up to the integral over [a,b] within the sum of those bounds (rs_piece_accuracy, cav_piece_accuracy, *_total_accuracy); beyond that class the clause is decided by the exact-antiderivative oracle and the reference quadrature"),
     "C08": P(["disp3d", "quad2d"], tb=DISP_TB + TRI_TB + QUAD_TB, assumptions=DISP_AS,
-             partial="C08Accuracy proves the property end to end on the exact class: bivariate polynomial f through the AD operations and affine c (so |det Dg| = |1 - a f_x - b f_y|, resolved where it has constant sign on the triangle; constant c: any f of degree <= 30): per triangle the reported value is within an explicit bound of the exact iterated integral of f*|det| over that triangle (identified with 2*area times the real simplex integral), 0 <= e < tol, the values add up over the triangles of `sweep`, and for simple quadrilaterals and convex polygons with constant integrand the total is k*area(P) within |k|*|shoelace|*1.5e-16 (with the C04 acceptance theorems; a Rat -> XQ transfer theorem connects the quadrature and the sweep); outside this class the property is conditional on the tiling (C03) and the total is checked against a closed form for linear/quadratic f and linear c on sets with holes"),
+             partial="C08Accuracy proves the property end to end on the exact class: bivariate polynomial f through the AD operations and affine c (so |det Dg| = |1 - a f_x - b f_y|, resolved where it has constant sign on the triangle; constant c: any f of degree <= 30): per triangle the reported value is within an explicit bound of the exact iterated integral of f*|det| over that triangle (identified with 2*area times the real simplex integral), 0 <= e < tol, the values add up over the triangles of `sweep`, and for simple quadrilaterals and convex polygons with constant integrand the total is k*area(P) within |k|*|shoelace|*1.5e-16 (with the C04 acceptance theorems; a Rat -> XQ transfer theorem connects the quadrature and the sweep); C08General lifts the totals from 'the triangles of the sweep' to the REGION for every valid polygon set (holes, islands, components, vertical edges): cav3_region_const - with a constant integrand the reported total is k times the area of the even-odd region within 1.5e-16 relative, and there are triCountV displays; cav3_region_of_terms / _poly / _affine / _sign - for polynomial integrands the sum of the exact per-triangle integrals equals regionMoment, a quantity defined from the polygons alone (Green's boundary formula with a closed-form rational edge weight; additivity proved by telescoping the antisymmetric weight over the tiling), and the reported total is within the summed per-triangle bounds of it; not done: identification of the iterated simplex integrals / regionMoment with a two-dimensional Lebesgue integral, and a success clause; outside the exact class the total is checked against a closed form for linear/quadratic f and linear c on sets with holes"),
     "C09": P(["quad2d"], tb=QUAD_TB, assumptions=QUAD_AS,
              partial="C09Accuracy.gk2d_poly_accuracy / gkTriangle_poly_accuracy: on the exact class (polynomial in y of degree <= 31 with polynomial inner integral of degree <= 31; for triangles any term list of total degree <= 30 and ANY triangle) a successful result is within the outer table defect plus (2+1e-16) times the inner bound of the exact iterated integral, for any number of outer and inner bisections, and 0 <= e < tol; gk2d_poly_success gives first-panel success for degree <= 19; the iterated integral is not identified with a Mathlib area integral; beyond the exact class accuracy is explored against a nested Gauss-Legendre reference"),
     "C11": P(["disp2d"], tb=DISP_TB, assumptions=DISP_AS,
@@ -239,7 +239,7 @@ LEVEL_TEXT["C13"].update({
     "technique": "Lean 4 / Mathlib theorems + bit-exact correspondence + prescribed-turning-point oracle"})
 LEVEL_TEXT["C08"].update({
     "text": LEVEL_TEXT["C08"]["text"] + " Added (C08Accuracy): end-to-end accuracy and additivity on the exact class (polynomial f via the AD operations, affine c, |det| of constant sign per triangle), for any number of bisections, against the exact iterated integral over each triangle of the model's sweep; total = k*area(P) within 1.5e-16 relative for simple quadrilaterals and convex polygons with constant integrand.",
-    "note": "Outside the exact class conditional on the tiling (C03).",
+    "note": "C08General: totals over the whole even-odd region of every valid set (constant integrand: k*area; polynomial: Green boundary moment). Outside the exact class explored.",
     "technique": "Lean 4 / Mathlib end-to-end accuracy theorems (quadrature + AD Jacobian + sweep acceptance) + bit-exact correspondence + closed-form oracle"})
 LEVEL_TEXT["C01"].update({
     "text": LEVEL_TEXT["C01"]["text"] + " Added (C01Success): for degree <= 19 and tol above twice the defect bound the routine succeeds on the first panel.",
